@@ -883,6 +883,16 @@ def run(ctx: Ctx) -> int:
         ok = len(st_) == 1 and not guard_chain(st_[0], stop=fsl)
         ctx.oblige("C03.R5", ok, st_[0] if st_ else fsl, f"set_loader overwrites {table}[{slp[0]}] with `{par}`" if ok else f"set_loader does not (unconditionally) overwrite {table}[{slp[0]}] with `{par}`: after set_loader('yaml', json.loads, exceptions=(JSONDecodeError,)) the mode keeps the exception tuple it had, and the new loader's JSONDecodeError leaves parse_string", fn=fsl, construct=f"set_loader overwrites {table}")
 
+    # help text is the user's text: expanding it must tolerate placeholders it does not know (`%(unit)s`, a stray `%(`) -
+    # string.Template.substitute raises KeyError / ValueError for them, safe_substitute leaves them alone.  --help must
+    # exit 0, and the usage printed with a parse error must not fail itself
+    eh3 = ctx.func("_formatters:DefaultHelpFormatter._expand_help")
+    subs3 = [c for c in calls_in(eh3) if call_leaf(c) in ("substitute", "safe_substitute")]
+    ctx.floor("C03.R7-help-expansion", len(subs3), 1)
+    for c in subs3:
+        ok = call_leaf(c) == "safe_substitute"
+        ctx.oblige("C03.R7", ok, c, "help text is expanded with safe_substitute" if ok else "help text is expanded with Template.substitute: a help string with an unknown placeholder (`%(unit)s`) or a stray `%(` makes --help raise ValueError / KeyError (or exit 2) instead of printing the help and exiting 0", fn=eh3)
+
     # ---------------- C03.R13 (an index guarded by a too weak length test) --------------------------------------------
     # `len(x) > n and ... x[k]`: the author checked the length, so the index is meant to be safe - it is only if k <= n
     # (k < n for `>=` / `==`).  A guard that is too weak turns a rejected value into an IndexError out of every parse method.
